@@ -286,10 +286,15 @@ def run_case(case):
                     if blank(init) != blank(supplied):
                         diff = [k for k in ("data_config", "model_config", "trainer_config") if blank(init).get(k) != blank(supplied).get(k)]
                         errors.append(f"initial_config.yaml differs from the supplied configuration in {diff}")
-                try:
-                    trainer.train()
-                except BaseException as e:
-                    errors.append(f"train() raised {type(e).__name__}: {str(e)[:300]}")
+                # history: "runs": 2 calls train() a second time on the same trainer object (continuing a run); every
+                # call is a training run of the property and has to complete and leave the same artifacts
+                for run_no in range(case.get("runs", 1)):
+                    try:
+                        trainer.train()
+                    except BaseException as e:
+                        errors.append(f"train() call {run_no + 1} raised {type(e).__name__}: {str(e)[:300]}")
+                        break
+                    scan(f"after-train-{run_no + 1}")
                 try:
                     import wandb
 
@@ -370,6 +375,12 @@ def grid(tier):
               for i, (wb, ck, kind) in enumerate([(False, True, "plain"), (True, False, "structured"), (False, False, "structured"), (True, True, "plain")])]
     if tier != "quick":
         lowmem = [{"model": mt, "fw": "torch_dataset", "wandb": wb, "ckpt": True, "kind": kind, "mem": "low"} for mt in MODEL_TYPES for wb in (False, True) for kind in ("plain", "structured")]
+    # history: two training runs on one trainer object (state kept on the trainer between runs)
+    twice = [{"model": MODEL_TYPES[i % 4], "fw": fw, "wandb": wb, "ckpt": True, "kind": kind, "runs": 2}
+             for i, (fw, wb, kind) in enumerate([("torch_dataset_np_chunks", False, "plain"), ("torch_dataset", True, "structured")])]
+    if tier != "quick":
+        twice = [{"model": mt, "fw": fw, "wandb": wb, "ckpt": True, "kind": "plain", "runs": 2} for mt in MODEL_TYPES for fw in ("torch_dataset", "torch_dataset_np_chunks") for wb in (False, True)]
+    lowmem = lowmem + twice
     if tier == "quick":
         # pairwise-complete 16-run sub-grid: all fw x wandb x ckpt x kind combinations, model types alternating
         out = []
